@@ -7,6 +7,15 @@ import sympy as sp
 from .tree import pp, strip_casts, short_fn
 
 
+class LambdaVal(object):
+    """value of a local closure (the Lambda node of the extracted AST)"""
+    def __init__(self, node):
+        self.node = node
+
+    def __repr__(self):
+        return 'closure'
+
+
 class Unsupported(Exception):
     """The body uses a construct this reader does not interpret: the rule that asked becomes UNDECIDED."""
 
@@ -458,6 +467,12 @@ class Reader:
         if init is None:
             st.locals[v['id']] = self.symbol('uninit:' + v['name'], v['t'])
             return [st]
+        lam = strip_casts(init)
+        while isinstance(lam, dict) and lam.get('k') == 'Construct' and len(lam.get('args', [])) == 1:
+            lam = strip_casts(lam['args'][0])
+        if isinstance(lam, dict) and lam.get('k') == 'Lambda' and lam.get('body') is not None:
+            st.locals[v['id']] = LambdaVal(lam)           # a local closure: its calls are inlined (captures are the enclosing locals themselves)
+            return [st]
         if v['t'].get('ref'):
             lv = self.lvalue(init, st, ctx)
             if lv and lv[0] == 'field':
@@ -751,6 +766,28 @@ class Reader:
         raise Unsupported('assignment through %s at %s' % (pp(lhs), lhs.get('loc')))
 
     def call(self, e, st, ctx):
+        # call of a local closure: inline its body with the parameters bound (captures are the enclosing locals themselves; depth-limited like any call)
+        if e.get('k') == 'Op' and e.get('op') == '()' and e.get('args'):
+            o_ = strip_casts(e['args'][0])
+            lamv = st.locals.get(o_.get('id')) if isinstance(o_, dict) and o_.get('k') == 'Ref' else None
+            if isinstance(lamv, LambdaVal):
+                largs = list(e['args'][1:])
+                if ctx['depth'] >= self.max_depth:
+                    raise Unsupported('inlining depth exceeded in a closure')
+                lparams = lamv.node.get('params') or []
+                if len(lparams) != len(largs):
+                    raise Unsupported('closure called with %d arguments for %d parameters' % (len(largs), len(lparams)))
+                out = []
+                for (vals, s2) in self.evs(largs, st, ctx):
+                    for p_, v_ in zip(lparams, vals):
+                        s2.locals[p_['id']] = v_
+                    ctx2 = dict(ctx)
+                    ctx2['depth'] = ctx['depth'] + 1
+                    for fs in self.ex(lamv.node['body'], s2, ctx2):
+                        r = fs.ret
+                        fs.returned, fs.ret = False, None
+                        out.append((r, fs))
+                return out
         if self.call_hook is not None:
             v = self.call_hook(self, e, st, ctx)
             if v is not NotImplemented:
